@@ -69,6 +69,13 @@ def cargo_env():
 
 def build(world, profile="release"):
     t0 = time.time()
+    if os.environ.get("VERIF_NO_BUILD"):
+        # long background sweeps build once up front and must not pick up later edits of /repo
+        path = os.path.join(TARGET, profile, world)
+        if not os.path.exists(path):
+            log(f"HARNESS-ERROR: VERIF_NO_BUILD is set but {path} does not exist")
+            sys.exit(2)
+        return path
     cmd = ["cargo", "build", "--offline", "--bin", world]
     cmd += ["--release"] if profile == "release" else ["--profile", profile]
     if os.environ.get("VERIF_SMALL"):
